@@ -139,6 +139,9 @@ def main():
     ap.add_argument("--count", type=int, default=100)
     ap.add_argument("--files", default="")
     ap.add_argument("--list", action="store_true")
+    ap.add_argument("--replay", default="")
+    ap.add_argument("--replay-results", default="SURVIVED")
+    ap.add_argument("--out", default="")
     a = ap.parse_args()
     w = os.path.join(a.work, "w%d" % a.worker)
     repo = os.path.join(w, "repo")
@@ -164,15 +167,37 @@ def main():
     rng = random.Random(a.seed)
     rng.shuffle(allsites)
     mine = [s for k, s in enumerate(allsites[:a.count]) if k % a.of == a.worker]
+    if a.replay:
+        # re-run recorded mutants (by default the survivors) against the checks as they are now; a site is found
+        # again by its old line text at or near the recorded line (fix commits may have moved it)
+        mine = []
+        seen = set()
+        for l in open(a.replay):
+            r = json.loads(l)
+            if r["result"] not in a.replay_results.split(",") or (r["file"], r["line"], r["op"]) in seen:
+                continue
+            seen.add((r["file"], r["line"], r["op"]))
+            path = os.path.join(repo, r["file"])
+            if not os.path.exists(path):
+                continue
+            lines = open(path).read().splitlines()
+            cands = [i for i in range(len(lines)) if lines[i] == r["old"]]
+            if not cands:
+                print("GONE", r["file"], r["line"], r["op"], flush=True)
+                continue
+            i = min(cands, key=lambda i: abs(i - (r["line"] - 1)))
+            mine.append((r["file"], i, r["op"], r["new"] + "\n"))
+        mine = [s for k, s in enumerate(mine) if k % a.of == a.worker % a.of]
     if a.list:
         print(len(allsites), "sites;", len(mine), "for this worker")
         return
     env = dict(ENV, REPO_ROOT=repo, VERIF_ROOT=verif, TMPDIR=os.path.join(w, "tmp"))
     os.makedirs(env["TMPDIR"], exist_ok=True)
-    out = open(os.path.join(a.work, "results.w%d.jsonl" % a.worker), "a")
+    resfile = a.out or os.path.join(a.work, "results.w%d.jsonl" % a.worker)
+    out = open(resfile, "a")
     done = set()
     try:
-        for l in open(os.path.join(a.work, "results.w%d.jsonl" % a.worker)):
+        for l in open(resfile):
             r = json.loads(l); done.add((r["file"], r["line"], r["op"]))
     except Exception:
         pass
